@@ -82,10 +82,11 @@ def gen_hw(rng):
     has_add = rng.random() < 0.6
     has_seq = rng.random() < 0.4
     arch = "architecture:\n  Accel:\n  - name: System\n    attributes:\n      clock_frequency: %d\n    local:\n    - name: MainMemory\n      class: DRAM\n      attributes:\n        bandwidth: %d\n" % (freq, bw)
-    arch += "    subtree:\n    - name: Chip\n"
+    nchip = rng.choice([0, 0, 1, 3])                      # the level holding the first buffer may itself be replicated
+    arch += "    subtree:\n    - name: %s\n" % ("Chip" if nchip == 0 else "Chip[0..%d]" % nchip)
     if buf_class:
         arch += "      local:\n      - name: Buf\n        class: %s\n        attributes:\n          width: %d\n          depth: %d\n" % (buf_class, rng.choice([8, 64]), rng.choice([16, 1024]))
-        if rng.random() < 0.3:
+        if rng.random() < 0.6:
             arch += "          bandwidth: %d\n" % rng.choice([3, 13])
     arch += "      subtree:\n      - name: PE[0..%d]\n        local:\n" % npe
     buf1 = buf_class is not None and rng.random() < 0.5
@@ -270,7 +271,9 @@ def gen_hw_cascade(rng):
     for i in range(n):
         arch += "      - name: FU%d\n        class: Compute\n        attributes:\n          type: %s\n" % (i, "mul" if ops[i] == "*" else "add")
     b = "bindings:\n"
+    descs = []
     for i, o in enumerate(outs):
+        descs.append({"cfg": "Accel", "loop": list(ranks), "space": list(st[o]["space"]), "comps": []})
         b += "  %s:\n  - config: Accel\n    prefix: tmp/%s\n" % (o, o)
         t = "BCDE"[i] if rng.random() < 0.7 else o
         r = ranks[-1]
@@ -281,9 +284,10 @@ def gen_hw_cascade(rng):
         if rng.random() < 0.7:
             fu = 0 if (shared_fu and ops[i] == ops[0]) else i
             b += "  - component: FU%d\n    bindings:\n    - op: %s\n" % (fu, "mul" if ops[i] == "*" else "add")
+            descs[-1]["comps"].append("FU%d" % fu)
     full = y + fmt + arch + b
     return {"yaml": full, "configs": [{r: 3 for r in ranks}], "family": "hw-cascade", "key": full, "hw": True, "plain_yaml": mk_yaml(decl, exprs, lo={o: list(ranks) for o in outs}),
-            "arch": {}, "cap": 12}
+            "arch": {}, "cap": 12, "fusion_descs": descs, "outs": outs}
 
 
 def gen_hw_merger_cascade(rng):
